@@ -45,8 +45,9 @@ def scale(tier, quick, thorough):
 # ------------------------------------------------------------------------------------------------
 # run specifications
 def spec_run(kind, fmt, *, dims=1, channels=1, seed=0, raw=None, chk=None, f=None, dists=None, fills=None, tables=None,
-             wants=0, mp=None, cb=None, trace=0, ops=None, acc=0, pos=0, idx=0):
+             wants=0, mp=None, cb=None, trace=0, ops=None, acc=0, pos=0, idx=0, mapdims=None):
     s = [['kind', kind], ['dims', dims], ['channels', channels], ['seed', seed]]
+    if mapdims: s.append(['mapdims', mapdims])
     if raw: s.append(['raw', list(raw)])
     if pos: s.append(['pos', pos])
     if idx: s.append(['idx', idx])
@@ -72,16 +73,16 @@ def rand_chk(rng, kind, fmt, dims, channels, force_user=False):
     if kind == 'plain':
         return ['plain'], ['chk_plain']
     if kind == 'vegas':
-        bins = rng.choice([2, 3, 4, 8])
-        alpha = rng.choice([Fraction(0), Fraction(1, 2), Fraction(3, 2), Fraction(3)])
+        bins = rng.choice([2, 3, 4, 8, 5, 7, 41, 49, 55, 128] if rng.random() < 0.3 else [2, 3, 4, 8])
+        alpha = rng.choice([Fraction(0), Fraction(1, 2), Fraction(3, 2), Fraction(3), Fraction(4, 3)])
         if rng.random() < 0.5 and not force_user:
             return ['default', bins, fmt.rtok(alpha)], ['chk_default']
         xs = []
         for d in range(dims):
             xs += rand_grid(rng, fmt, bins, rng.choice(['random', 'peaked', 'uniform']))
         return ['pdf', bins, dims, toks(fmt, xs), fmt.rtok(alpha)], ['chk_user_grid']
-    minw = rng.choice([Fraction(0), Fraction(1, 100), Fraction(1, 4 * channels)])
-    beta = rng.choice([Fraction(1, 4), Fraction(1, 2), Fraction(1)])
+    minw = rng.choice([Fraction(0), Fraction(1, 100), Fraction(1, 4 * channels), Fraction(1, 3000)])
+    beta = rng.choice([Fraction(1, 4), Fraction(1, 2), Fraction(1), Fraction(1, 3)])
     if rng.random() < 0.5 and not force_user:
         return ['default', fmt.rtok(minw), fmt.rtok(beta)], ['chk_default']
     ws = rand_weights(rng, fmt, channels)
@@ -100,7 +101,7 @@ def rand_tab(rng, fmt, n, classes=None, finite_only=False):
 def rand_poly(rng, fmt, dims):
     return ['poly', [[fmt.rtok(Fraction(rng.randint(-3, 5), 2)), fmt.rtok(Fraction(rng.randint(-4, 8), 2))] for _ in range(dims)]]
 
-def rand_map_tab(rng, fmt, channels, n=7, special=False):
+def rand_map_tab(rng, fmt, channels, n=7, special=False, mapdims=None):
     dens = []
     for _ in range(n * channels):
         r = rng.random()
@@ -115,7 +116,8 @@ def rand_map_tab(rng, fmt, channels, n=7, special=False):
         elif special and r < 0.12: jac.append(Fraction(0))
         elif special and r < 0.15: jac.append('nan')
         else: jac.append(Fraction(rng.randint(1, 8), rng.choice([1, 2, 4])))
-    return ['tab', [], toks(fmt, [fmt.round(d) if isnum(d) else d for d in dens]), toks(fmt, [fmt.round(j) if isnum(j) else j for j in jac])]
+    ctab = [] if mapdims is None else toks(fmt, [fmt.round(Fraction(rng.getrandbits(12), 4096)) for _ in range(n * mapdims)])
+    return ['tab', ctab, toks(fmt, [fmt.round(d) if isnum(d) else d for d in dens]), toks(fmt, [fmt.round(j) if isnum(j) else j for j in jac])]
 
 def rand_map_grid(rng, fmt, channels, dims, kappa=None, dyadic=False):
     grids = []
@@ -197,12 +199,15 @@ def rand_run(rng, fmt, kind, *, calls=None, iters=None, value_classes=None, dist
     dl = dists if dists is not None else rand_dists(rng, fmt)
     fills, tables = rand_fills(rng, fmt, kind, dl, dims) if dl else ([], [])
     if dl: classes.append('distributions_%d' % len(dl))
-    mp = None
+    mp = None; mapdims = None
     if kind == 'mc':
         if grid_map if grid_map is not None else (poly and rng.random() < 0.7):
             mp = rand_map_grid(rng, fmt, channels, dims); classes.append('map_grid')
         else:
-            mp = rand_map_tab(rng, fmt, channels, special=special_map); classes.append('map_tab' + ('_special' if special_map else ''))
+            mapdims = None
+            if not poly and rng.random() < 0.4:
+                mapdims = rng.choice([dims + 1, dims + 2, max(1, dims - 1)]); classes.append('map_dimensions_differ')
+            mp = rand_map_tab(rng, fmt, channels, special=special_map, mapdims=mapdims); classes.append('map_tab' + ('_special' if special_map else ''))
     iters = iters if iters is not None else rng.choice([1, 2, 3])
     cl_calls = [rng.choice(calls or [0, 1, 2, 3, 5, 8, 17]) for _ in range(iters)]
     classes += ['calls_%s' % ('0' if c == 0 else '1' if c == 1 else 'small' if c < 4 else 'more') for c in cl_calls]
@@ -214,9 +219,14 @@ def rand_run(rng, fmt, kind, *, calls=None, iters=None, value_classes=None, dist
     if rng.random() < 0.5:
         raw = [raw_of(rng.choice(special_units(fmt, 4))) for _ in range(rng.randint(1, 6))]
         classes.append('extreme_canonical_numbers')
+        if rng.random() < 0.5:
+            # the largest raw outputs of the engine: x / 2^64 rounds to 1 in the numeric type and must be mapped back below 1
+            tops = [2 ** 64 - 1, 2 ** 64 - 2, 2 ** 64 - 2 ** max(0, 63 - fmt.prec), 2 ** 64 - 2 ** max(0, 64 - fmt.prec) + 1]
+            for _ in range(rng.randint(1, 4)): raw.insert(rng.randrange(len(raw) + 1), rng.choice(tops))
+            classes.append('top_raw_engine_outputs')
     s = spec_run(kind, fmt, dims=dims, channels=channels, seed=seed, raw=raw, chk=chk, f=f, dists=dl, fills=fills, tables=tables,
                  wants=w, mp=mp, cb=cb, trace=trace, ops=ops if ops is not None else [['run', cl_calls], ['dump']],
-                 acc=1 if (not dl and rng.random() < 0.2) else 0)
+                 acc=1 if (not dl and rng.random() < 0.2) else 0, mapdims=(mapdims if kind == 'mc' and mp is not None and mp[0] == 'tab' else None))
     if cb is not None and cb[0] == 'builtin' and rng.random() < 0.5:
         # the callback instantiated with the checkpoint's base class (without the engine), as the library's examples do
         s.insert(-1, ['cbbase', 1]); classes.append('callback_on_base_class')
@@ -360,6 +370,19 @@ def gen_C08_runs(c, rng, tier):
                                    value_classes=['small_int', 'frac', 'zero', 'tiny', 'big'])
             s = [e for e in s if e[0] != 'ops'] + [['ops', [['run', info['calls']], ['dump'], ['maxdiff']]]]
             c.add(t, 'run', s, classes=cl + ['weights_in_real_runs'], info=info)
+        for _ in range(scale(tier, 5, 40)):
+            # integrands that book distributions and return non-finite values now and then (they must not reach the weights)
+            iters = rng.choice([3, 4])
+            s, cl, info = rand_run(rng, fmt, 'mc', iters=iters, calls=[8, 16], poly=False, dists=rand_dists(rng, fmt, n=1), user_state=(rng.random() < 0.5),
+                                   value_classes=['small_int', 'frac', 'nan', 'inf', 'zero', 'small_int'])
+            c.add(t, 'run', s, classes=cl + ['weights_with_distributions_and_non_finite_values'], info=info)
+        for _ in range(scale(tier, 5, 40)):
+            # user weights (unnormalised, with disabled channels): run, reload, resume, roll back to the start, run again
+            n = rng.choice([2, 3])
+            s, cl, info = rand_run(rng, fmt, 'mc', iters=n, calls=[6, 12], poly=True, grid_map=True, finite_only=True, dists=[], user_state=True)
+            calls = info['calls']
+            s = [e for e in s if e[0] != 'ops'] + [['ops', [['run', calls[:1]], ['reload'], ['run', calls[1:]], ['rollback', 0], ['dump'], ['run', calls], ['dump']]]]
+            c.add(t, 'run', s, classes=cl + ['reload_resume_rollback_redo'], info=info)
 
 def gen_C07_runs(c, rng, tier):
     """grids inside real VEGAS runs: chains of refinements driven by peaked integrands, zero iterations in between"""
@@ -475,11 +498,14 @@ def gen_C06(c, rng, tier):
       'standard engines and synthetic ranges (C++-only part); non-trivial = multi-channel or non-finite values',
       COMMON_ASSUMPTIONS + ['libm floor(log2 R) agrees between hep-mc (std::log2) and libstdc++ (log(R)/log(2)) - measured, not proved'])
 def gen_C10(c, rng, tier):
+    PROPS['C10']['mpi'] = True
     for t in TYPES:
         fmt = FMTS[t]
         for kind in KINDS:
             for _ in range(scale(tier, 8, 60)):
                 s, cl, info = rand_run(rng, fmt, kind, special_map=(kind == 'mc' and rng.random() < 0.5))
+                if rng.random() < 0.25:
+                    s, cl3 = mpi_variant(rng, s, info); cl = cl + cl3          # every rank ends at the serial generator position
                 c.add(t, 'run', s, classes=cl, nontrivial=(kind == 'mc' or any('value_nan' == x or 'value_inf' == x for x in cl)), info=info)
     for b, l in itertools.product([24, 53, 64], [1, 2, 8, 16, 24, 30, 31, 32, 48, 63, 64]):
         c.add('d', 'usage', [b, l], classes=['usage_k'], model_only=True)
